@@ -533,31 +533,32 @@ theorem aux_cis_connect {c : Conn} {rx : RR} (h : aux_CIS c) (ha : c.alive = tru
   have hd : c.disconnectedSeen = 0 := by omega
   refine ⟨⟨?_, ?_, h3, ?_, h5, ?_, ?_⟩, ?_⟩ <;> simp [h0, hd, ha, hs, hset ha]
 
-theorem aux_invc_httpEvent0 {w : World} (fuel i : Nat) (h : aux_InvC w) (h0 : (w.get i).connectedSeen = 0)
+theorem aux_invc_httpEvent0 {w : World} (fuel i : Nat) (hf : 7 ≤ fuel) (h : aux_InvC w) (h0 : (w.get i).connectedSeen = 0)
     (hs : (w.get i).hsStored = false) (hset : (w.get i).alive = true → (w.get i).inComms = true) :
     aux_InvC (httpEvent fuel w i 0) := by
-  cases fuel with
-  | zero => simpa [httpEvent] using h
-  | succ n =>
-    simp only [httpEvent, BEq.rfl, if_true]
-    split
-    · exact h
-    next ha =>
-    split
-    · exact h
-    · refine aux_invc_emit ?_
+  obtain ⟨n, rfl⟩ : ∃ n, fuel = n + 7 := ⟨fuel - 7, by omega⟩
+  simp only [httpEvent, BEq.rfl, if_true]
+  split
+  · exact h
+  next ha =>
+  split
+  · exact h
+  · have h1 : aux_InvC ((w.upd i fun c => { c with httpAlive := true, inHttp := true, rx := {}, appKnows := true,
+                                                   connectedSeen := c.connectedSeen + 1 }).emit s!"ev connected {cn i}") := by
+      refine aux_invc_emit ?_
       exact aux_invc_upd h (fun _ => aux_cis_connect (aux_cis_get h i) (by simpa using ha) h0 hs hset)
+    split
+    · exact aux_invc_disconnect _ _ (by omega) h1
+    · exact h1
 
-theorem aux_invc_commsEvent0 {w : World} (fuel i : Nat) (h : aux_InvC w) (h0 : (w.get i).connectedSeen = 0)
+theorem aux_invc_commsEvent0 {w : World} (fuel i : Nat) (hf : 8 ≤ fuel) (h : aux_InvC w) (h0 : (w.get i).connectedSeen = 0)
     (hs : (w.get i).hsStored = false) (hset : (w.get i).alive = true → (w.get i).inComms = true) :
     aux_InvC (commsEvent fuel w i 0) := by
-  cases fuel with
-  | zero => simpa [commsEvent] using h
-  | succ n =>
-    simp only [commsEvent]
-    have e : ((0 : Nat) == 2) = false := rfl
-    simp only [e, Bool.false_eq_true, if_false]
-    exact aux_invc_httpEvent0 _ _ h h0 hs hset
+  obtain ⟨n, rfl⟩ : ∃ n, fuel = n + 8 := ⟨fuel - 8, by omega⟩
+  simp only [commsEvent]
+  have e : ((0 : Nat) == 2) = false := rfl
+  simp only [e, Bool.false_eq_true, if_false]
+  exact aux_invc_httpEvent0 _ _ (by omega) h h0 hs hset
 
 theorem aux_invc_handshake {w : World} (i : Nat) (ok : Bool) (h : aux_InvC w) (h0 : (w.get i).connectedSeen = 0)
     (hs : (w.get i).hsStored = false) (hset : (w.get i).alive = true → (w.get i).inComms = true) :
@@ -567,12 +568,15 @@ theorem aux_invc_handshake {w : World} (i : Nat) (ok : Bool) (h : aux_InvC w) (h
   split
   · exact h
   split
-  · refine aux_invc_enableReception _ ?_
-    refine aux_invc_commsEvent0 _ _ ?_ ?_ ?_ ?_
-    · aux_inv_auto
-    · exact aux_get_upd_pres (fun c => c.connectedSeen = 0) i (fun _ hc => hc) h0
-    · exact aux_get_upd_pres (fun c => c.hsStored = false) i (fun _ hc => hc) hs
-    · exact aux_get_upd_pres (fun c => c.alive = true → c.inComms = true) i (fun _ hc => hc) hset
+  · have h1 : aux_InvC (commsEvent FUEL (w.upd i fun c => { c with connected := true }) i 0) := by
+      refine aux_invc_commsEvent0 _ _ (by decide) ?_ ?_ ?_ ?_
+      · aux_inv_auto
+      · exact aux_get_upd_pres (fun c => c.connectedSeen = 0) i (fun _ hc => hc) h0
+      · exact aux_get_upd_pres (fun c => c.hsStored = false) i (fun _ hc => hc) hs
+      · exact aux_get_upd_pres (fun c => c.alive = true → c.inComms = true) i (fun _ hc => hc) hset
+    split
+    · exact aux_invc_enableReception _ h1
+    · exact h1
   · aux_inv_auto
 
 /-! ### collection of unowned objects -/
